@@ -5,7 +5,7 @@ IDS="${*:-C01 C02 C03 C04 C05 C06 C07 C08 C09 C10 C11 C12 C13 C14 C15 C16 C17 C1
 cd /verif
 for P in $IDS; do
   S=$(date +%s)
-  ./check "$P" --tier "$TIER" > "/var/tmp/vscratch/all_${TIER}_$P.log" 2>&1
+  timeout 3000 ./check "$P" --tier "$TIER" > "/var/tmp/vscratch/all_${TIER}_$P.log" 2>&1
   RC=$?
   E=$(( $(date +%s) - S ))
   echo "$P exit=$RC wall=${E}s $(grep -a "^\[$P\] tier" /var/tmp/vscratch/all_${TIER}_$P.log | cut -c1-160)"
